@@ -92,9 +92,11 @@ def make_value(schema, seed, fault_rate=0.0, kinds=TOP_FAULTS):
         if is_leaf_type(t):
             name = t.name
             if name == 'Int':
-                return (x >> 8) % 100
+                k = (x >> 8) % 100
+                return (-2 ** 31, 2 ** 31 - 1, -1, -2 ** 31 + 1)[k - 96] if k >= 96 else k      # 4%: the edges of the domain
             if name == 'Float':
-                return ((x >> 8) % 100) / 4
+                k = (x >> 8) % 100
+                return (-2 ** 31, 2 ** 53, 1e308, -1.5e-300)[k - 96] if k >= 96 else k / 4
             if name == 'Boolean':
                 return bool((x >> 8) & 1)
             if name == 'ID':
